@@ -236,7 +236,10 @@ theorem emitted_is_legal (esc : Bytes → Bytes) (legacy : Bool) (name help : By
   split at h
   · cases h
   · rename_i hd
-    have hd' : descOK legacy name (getAttrs esc legacy p.attrs ++ extra) = true := by simpa using hd
+    have hd'' : metricOK legacy name (getAttrs esc legacy p.attrs ++ extra) = true := by simpa using hd
+    unfold metricOK at hd''
+    simp only [Bool.and_eq_true] at hd''
+    have hd' := hd''.1
     unfold descOK at hd'
     simp only [Bool.and_eq_true] at hd'
     have hfields : e.name = name ∧ e.labels = getAttrs esc legacy p.attrs ++ extra := by
@@ -251,17 +254,18 @@ theorem emitted_is_legal (esc : Bytes → Bytes) (legacy : Bool) (name help : By
     exact ⟨hd'.1.1, hd'.1.2, hd'.2⟩
 
 /-- … and inside the domain nothing is refused: a legal family name (`familyName_legal`) and an admissible attribute set
-(`Spec.labelsAdmissible`, the validity predicate of the run-time oracle) make the series present — for sums, gauges and
+(`Spec.labelsAdmissible`, the validity predicate of the run-time oracle) with valid UTF-8 label values make the series present — for sums, gauges and
 explicit histograms always, for exponential histograms iff the native conversion succeeds (F28). Its labels are the
 sanitised/merged attributes followed by the scope and resource-constant labels. -/
 theorem emitPoint_present (esc : Bytes → Bytes) (legacy : Bool) (name help : Bytes) (typ : MType) (extra : List KV)
     (p : Point) (hname : metricNameOK legacy name = true)
     (hadm : Spec.labelsAdmissible esc legacy p.attrs (extra.map (·.1)) = true)
+    (hvals : valuesOK (getAttrs esc legacy p.attrs ++ extra) = true)
     (hexpo : ∀ sumq dp, p.payload = Payload.expo sumq dp → (expoToNative dp).isSome = true) :
     ∃ e, emitPoint esc legacy name help typ extra p = some e ∧ e.labels = getAttrs esc legacy p.attrs ++ extra := by
   obtain ⟨h1, h2⟩ := labels_of_admissible esc legacy p.attrs extra hadm
-  have hd : descOK legacy name (getAttrs esc legacy p.attrs ++ extra) = true := by
-    unfold descOK; rw [hname, h1, h2]; rfl
+  have hd : metricOK legacy name (getAttrs esc legacy p.attrs ++ extra) = true := by
+    unfold metricOK descOK; rw [hname, h1, h2, hvals]; rfl
   unfold emitPoint
   simp only [hd, Bool.not_true, Bool.false_eq_true, if_false]
   cases hp : p.payload with
@@ -572,12 +576,12 @@ theorem first_of_family_present (esc : Bytes → Bytes) (cfg : Cfg) (extra : Lis
             exact List.mem_append_right _ this
 
 /-- target_info exactly as configured: the scrape is `[target_info]` (iff not WithoutTargetInfo and the resource's labels
-are admissible) followed by the rest; target_info carries the sanitised/merged resource attributes and the value 1; and
+are admissible, values valid UTF-8) followed by the rest; target_info carries the sanitised/merged resource attributes and the value 1; and
 nothing in the rest is called target_info (given no instrument's family name is target_info). -/
 theorem target_info_as_configured (esc : Bytes → Bytes) (sc : Scenario)
     (hnames : ∀ s ∈ sc.scopes, ∀ i ∈ s.insts, Spec.refName esc sc.cfg i.name i.unit i.dtype.mtype ≠ b "target_info") :
     ∃ rest, collect esc sc =
-      (if !sc.noTarget && descOK sc.cfg.legacy (b "target_info") (getAttrs esc sc.cfg.legacy sc.res)
+      (if !sc.noTarget && metricOK sc.cfg.legacy (b "target_info") (getAttrs esc sc.cfg.legacy sc.res)
         then [targetInfoMetric esc sc] else []) ++ rest ∧
       (targetInfoMetric esc sc).labels = getAttrs esc sc.cfg.legacy sc.res ∧
       (targetInfoMetric esc sc).payload = OutPayload.num 4 ∧
@@ -620,13 +624,13 @@ theorem collect_all_legal (esc : Bytes → Bytes) (sc : Scenario) : ∀ e ∈ co
     metricNameOK sc.cfg.legacy e.name = true ∧ e.labels.all (fun kv => labelNameOK sc.cfg.legacy kv.1) = true ∧
     nodupKeys (e.labels.map (·.1)) = true := by
   intro e he
-  have hdesc : ∀ n l, descOK sc.cfg.legacy n l = true →
+  have hdesc : ∀ n l, metricOK sc.cfg.legacy n l = true →
       metricNameOK sc.cfg.legacy n = true ∧ l.all (fun kv => labelNameOK sc.cfg.legacy kv.1) = true ∧
       nodupKeys (l.map (·.1)) = true := by
     intro n l h
-    unfold descOK at h
+    unfold metricOK descOK at h
     simp only [Bool.and_eq_true] at h
-    exact ⟨h.1.1, h.1.2, h.2⟩
+    exact ⟨h.1.1.1, h.1.1.2, h.1.2⟩
   unfold collect at he
   simp only at he
   rcases List.mem_append.mp he with h | h
